@@ -13,7 +13,7 @@ open Nibiru
 /-- the configuration of the source as it is now -/
 def genCfg : Cfg :=
   cfgOfFacts Generated.precompileRequiredGasLenCheck Generated.precompileIsMutation Generated.precompileRunCases
-    Generated.precompileRunDefersOOG Generated.precompileRawStringUses
+    Generated.precompileRunDefersOOG Generated.precompileRawStringUses Generated.getErc20AddressGuards
 
 /-! ### fact obligations (T1): the regenerated tables are what the theorems need -/
 
@@ -39,7 +39,13 @@ theorem fact_C08_methods_unique :
 /-- the source guards every place a panic could start: length check in requiredGas, denom validation before sdk.NewCoin and
     before the string-key index lookup, an out-of-gas handler in every Run -/
 theorem fact_C08_cfg_good : genCfg.Good := by
-  refine ⟨?_, ?_, ?_, ?_⟩ <;> decide
+  refine ⟨?_, ?_, ?_, ?_, ?_⟩ <;> decide
+
+/-- the argument of `getErc20Address` reaches the string-key index only through these checks, in this order -/
+theorem fact_C08_getErc20Address_guards :
+    Generated.getErc20AddressGuards =
+      ["e := assertNumArgs(args, 1); e != nil", "!ok", "err = sdk.ValidateDenom(bankDenom); err != nil",
+       "err = tfDenom.Validate(); err != nil", "strings.ContainsRune(bankDenom, 0)"] := by decide +kernel
 
 theorem fact_C08_all_runs_defer_oog : ∀ p ∈ Generated.precompileRunDefersOOG, p.2 = true := by decide
 
@@ -57,15 +63,17 @@ theorem requiredGas_some_of_lenCheck (c : Cfg) (x : Call) (h : c.requiredGasLenC
     | some m => simp; split <;> simp
 
 theorem body_ne_panic (c : Cfg) (x : Call) (m : String) (g : Nat) (hg : c.Good) : body c x m g ≠ .panic := by
-  obtain ⟨_, h2, h3, h4⟩ := hg
+  obtain ⟨_, h2, h3, h4, h5⟩ := hg
   unfold body
   split
   · simp [h2]
   · split
     · simp [h3]
     · split
-      · simp [h4]
-      · simp
+      · simp [h5]
+      · split
+        · simp [h4]
+        · simp
 
 /-- **C08 (no crash).** With the source's guards in place, no calldata (any length, any capacity of the memory window, any
     selector, decodable or not), no call context, value or gas amount drives a precompile call into a panic. -/
@@ -103,7 +111,7 @@ theorem C08_never_panics_current (x : Call) (hcap : x.len ≤ x.cap) : stage gen
 /-! ### counterexamples for the source as it was (each replayed on the real code; repaired by `fix:` commits) -/
 
 def cfgBefore : Cfg := { genCfg with requiredGasLenCheck := false, bankMsgSendValidatesDenom := false,
-                                     sendToEvmValidatesDenom := false, defersOOG := [("funtoken", true), ("oracle", false), ("wasm", true)] }
+                                     sendToEvmValidatesDenom := false, getErc20AddressRejectsNul := false, defersOOG := [("funtoken", true), ("oracle", false), ("wasm", true)] }
 
 /-- `address(0x800).call("")`: empty calldata reaches `input[:4]` -/
 theorem C08_counterexample_empty_calldata_before_fix :
@@ -126,6 +134,15 @@ theorem C08_counterexample_sendToEvm_nul_before_fix :
     stage cfgBefore { pc := "funtoken", len := 228, cap := 228, selCap := some "sendToEvm", selLen := some "sendToEvm",
                       unpackOk := true, readOnly := false, valueNonZero := false, gas := 5000000,
                       denom := String.ofList ['a', 'b', Char.ofNat 0, 'c'] } = .panic := by
+  decide
+
+/-- `getErc20Address("tf/a/b\0c")`: refused by `sdk.ValidateDenom`, let through by the tokenfactory format check (which only counts
+    the "/"-separated sections), and the string-key encoder of the BankDenom index panics on the NUL byte — a VIEW method, reachable
+    by STATICCALL from any contract -/
+theorem C08_counterexample_getErc20Address_tf_nul_before_fix :
+    stage cfgBefore { pc := "funtoken", len := 100, cap := 100, selCap := some "getErc20Address", selLen := some "getErc20Address",
+                      unpackOk := true, readOnly := true, valueNonZero := false, gas := 5000000,
+                      denom := String.ofList ['t', 'f', '/', 'a', '/', 'b', Char.ofNat 0, 'c'] } = .panic := by
   decide
 
 /-- an oracle query given less gas than the first store read costs: the out-of-gas panic had no handler -/
